@@ -327,7 +327,12 @@ static int assemble_with_chunk_fitting(assemblyline_t al,
         written_length == free_chunk_space + al->chunk_size) {
       *buf_pos += written_length;
     } else {
-      *buf_pos += nop_padding(al->buffer + *buf_pos, free_chunk_space);
+      // the longest nop is MAX_NOP_LEN bytes: fill a larger gap in several
+      // rounds (each round re-checks the buffer length)
+      *buf_pos += nop_padding(al->buffer + *buf_pos,
+                              free_chunk_space > MAX_NOP_LEN
+                                  ? MAX_NOP_LEN
+                                  : (unsigned int)free_chunk_space);
       assemble_again = true;
     }
   } while (assemble_again);
